@@ -20,14 +20,15 @@
 (*                                                                         *)
 (* A repository state is a record                                          *)
 (*   [tags : Name -|-> tag record with at least field c (peeled commit)],  *)
-(*    head : commit HEAD resolves to,  dirty : work-tree class,            *)
+(*    head : commit HEAD resolves to,  dirty : work-tree state (a kind of  *)
+(*    TaggerWorktree.tla),                                                 *)
 (*    version : raw VERSION string of mockery-tools.env,                   *)
 (*    other : opaque token for everything else that was observed]          *)
 (* Tag records are compared as a whole for "untouched" (the trace spec     *)
 (* puts the object identity in them), only field c is constrained for the  *)
 (* two refs the tool may write.                                            *)
 (***************************************************************************)
-EXTENDS Naturals, FiniteSets
+EXTENDS Naturals, FiniteSets, TaggerWorktree
 
 CONSTANTS
   NameTable,   \* tag name |-> [full, dots3, parsable, maj, min, pat, pre]
@@ -35,8 +36,9 @@ CONSTANTS
                \*   dots3    : the name has at least three dot-separated parts           (code-shaped layer only)
                \*   parsable : Masterminds/semver NewVersion (lenient) accepts the name  (code-shaped layer only)
                \*   maj,min,pat : numeric parts; pre : 0 = release, k > 0 = k-th pre-release identifier in semver order
-  ReqTable,    \* raw VERSION string |-> [valid, maj, min, pat, pre, fullname, majorname]
-  CleanKinds   \* work-tree classes that count as clean ("clean", and "ignored": only ignored files present)
+  ReqTable     \* raw VERSION string |-> [valid, maj, min, pat, pre, fullname, majorname]
+\* The work-tree states and what git calls clean are defined in TaggerWorktree.tla (no constant: the
+\* classification is computed from the HEAD / index / work-tree entries of every state).
 
 \* The abstraction tables are recomputed from the real library by the harness (drivers/tagger); a
 \* disagreement is a machinery error, never a verdict.
@@ -54,7 +56,9 @@ MajorName(r) == ReqTable[r].majorname
 \* existing full semantic-version tags with the same major as the request
 Blocking(tg, r) == {n \in DOMAIN tg : NameTable[n].full /\ NameTable[n].maj = ReqTable[r].maj}
 StrictlyNewer(tg, r) == ReqValid(r) /\ \A n \in Blocking(tg, r) : VLess(NameTable[n], ReqTable[r])
-Clean(d) == d \in CleanKinds
+\* "only on a clean work tree": clean iff `git status --porcelain` prints nothing for the work-tree state d
+\* (computed from its HEAD / index / work-tree entries, TaggerWorktree.tla)
+Clean(d) == d \in WtNames /\ WtClean(d)
 
 GatesPass(st) == Clean(st.dirty) /\ StrictlyNewer(st.tags, st.version)
 Permitted(st, flag) == flag = "false" /\ GatesPass(st)
